@@ -101,6 +101,8 @@ define_ops! {
     fastrlp04_enc = |a: U| { let mut o = vec![]; fastrlp_04::Encodable::encode(&a, &mut o); (o, fastrlp_04::Encodable::length(&a), <Uint<B, L> as fastrlp_04::MaxEncodedLenAssoc>::LEN) };
     scale_enc = |a: U| (parity_scale_codec::Encode::encode(&a), parity_scale_codec::Encode::size_hint(&a), <Uint<B, L> as parity_scale_codec::MaxEncodedLen>::max_encoded_len(), parity_scale_codec::Encode::encoded_size(&a));
     compact_enc = |a: U| (parity_scale_codec::Encode::encode(&CompactRefUint(&a)), parity_scale_codec::Encode::size_hint(&CompactRefUint(&a)));
+    // the route `#[codec(compact)]` takes on a struct field: HasCompact::Type -> EncodeAsRef::RefType::from(&field)
+    compact_hc_enc = |a: U| { let r = <<<Uint<B, L> as parity_scale_codec::HasCompact>::Type as parity_scale_codec::EncodeAsRef<'_, Uint<B, L>>>::RefType as From<&Uint<B, L>>>::from(&a); (parity_scale_codec::Encode::encode(&r), parity_scale_codec::Encode::size_hint(&r)) };
     ssz_enc = |a: U| (ssz::Encode::as_ssz_bytes(&a), ssz::Encode::ssz_bytes_len(&a), <Uint<B, L> as ssz::Encode>::ssz_fixed_len(), <Uint<B, L> as ssz::Encode>::is_ssz_fixed_len());
     borsh_enc = |a: U| borsh::to_vec(&a).map_err(|_| ());
     borsh_bits_enc = |a: U| borsh::to_vec(&Bits::from(a)).map_err(|_| ());
@@ -152,6 +154,7 @@ define_ops! {
     scale_dec = |s: BY| { let mut b = &s[..]; let r = <Uint<B, L> as parity_scale_codec::Decode>::decode(&mut b); (opt(r), s.len() - b.len()) };
     scale_opaque_dec = |s: BY| { let mut b = OpaqueInput(&s); let r = <Uint<B, L> as parity_scale_codec::Decode>::decode(&mut b); (opt(r), s.len() - b.0.len()) };
     compact_opaque_dec = |s: BY| { let mut b = OpaqueInput(&s); let r = <CompactUint<B, L> as parity_scale_codec::Decode>::decode(&mut b).map(|x| x.0); (opt(r), s.len() - b.0.len()) };
+    compact_hc_dec = |s: BY| { let mut b = &s[..]; let r = <<Uint<B, L> as parity_scale_codec::HasCompact>::Type as parity_scale_codec::Decode>::decode(&mut b).map(|x| { let back = parity_scale_codec::CompactAs::decode_from(*parity_scale_codec::CompactAs::encode_as(&x)).map(|c: CompactUint<B, L>| c.0); let u: Uint<B, L> = x.into(); assert!(back.ok() == Some(u), "CompactAs round trip"); let c2: CompactUint<B, L> = u.into(); assert!(c2.0 == u); u }); (opt(r), s.len() - b.len()) };
     compact_dec = |s: BY| { let mut b = &s[..]; let r = <CompactUint<B, L> as parity_scale_codec::Decode>::decode(&mut b).map(|x| x.0); (opt(r), s.len() - b.len()) };
     ssz_dec = |s: BY| opt(<Uint<B, L> as ssz::Decode>::from_ssz_bytes(&s));
     borsh_dec = |s: BY| opt(borsh::from_slice::<Uint<B, L>>(&s));
@@ -380,7 +383,7 @@ fn model(bits: usize, op: Op, args: &[V]) -> Expect {
             })
             .nt(true)
         }
-        compact_enc => {
+        compact_enc | compact_hc_enc => {
             let e = rc::compact(&a());
             let len = e.len();
             pred(&format!("(SCALE compact {e:02x?}, len <= size_hint <= len+4)"), move |g| {
@@ -478,7 +481,7 @@ fn model(bits: usize, op: Op, args: &[V]) -> Expect {
             let used = den.as_ref().map(|x| x.2);
             may_accept(bits, den.map(|x| x.0), Some(used.unwrap_or(0)), true)
         }
-        compact_dec | compact_opaque_dec => {
+        compact_dec | compact_opaque_dec | compact_hc_dec => {
             let den = rc::compact_denotes(s());
             let used = den.as_ref().map(|x| x.1);
             may_accept(bits, den.map(|x| x.0), Some(used.unwrap_or(0)), true)
@@ -569,6 +572,7 @@ fn roundtrips(l: &mut Local, bits: usize, v: &BigUint) {
     if bits < 536 {
         must(l, Op::compact_dec, rc::compact(v), true);
         must(l, Op::compact_opaque_dec, rc::compact(v), true);
+        must(l, Op::compact_hc_dec, rc::compact(v), true);
     }
     must(l, Op::ssz_dec, rc::fixed_le(v, nb), false);
     must(l, Op::borsh_dec, rc::fixed_le(v, nb), false);
@@ -656,6 +660,7 @@ fn c16(r: &Runner) {
             }
             if bits < 536 {
                 exec(l, bits, Op::compact_enc, &[a.clone()]);
+                exec(l, bits, Op::compact_hc_enc, &[a.clone()]);
             }
             for t in 0..PG_TYPES.len() {
                 exec(l, bits, Op::pg_to_sql, &[a.clone(), V::n(t)]);
